@@ -17,21 +17,21 @@ import (
 
 // recvScn: a receiving-side scenario (RecvScen.tla Emit + fields added by the driver).
 type recvScn struct {
-	ID       int             `json:"id"`
-	Family   string          `json:"family"`
-	Universe []string        `json:"universe"`
-	Dst      []fstree.Node   `json:"dst"`
-	List     []recvEntry     `json:"list"`
-	Opts     map[string]bool `json:"opts"`
-	IOErr    int32           `json:"ioerr"`
-	Prot     []string        `json:"prot"`
-	Recv     string          `json:"recv"`  // client | daemon
-	Chunk    int             `json:"chunk"` // literal chunk size of the reference sender
-	UseIDs   bool            `json:"useids"` // -o -g: send uid/gid fields
+	ID       int              `json:"id"`
+	Family   string           `json:"family"`
+	Universe []string         `json:"universe"`
+	Dst      []fstree.Node    `json:"dst"`
+	List     []recvEntry      `json:"list"`
+	Opts     map[string]bool  `json:"opts"`
+	IOErr    int32            `json:"ioerr"`
+	Prot     []string         `json:"prot"`
+	Recv     string           `json:"recv"`   // client | daemon
+	Chunk    int              `json:"chunk"`  // literal chunk size of the reference sender
+	UseIDs   bool             `json:"useids"` // -o -g: send uid/gid fields
 	Users    []wirekit.IDName `json:"users"`
 	Groups   []wirekit.IDName `json:"groups"`
-	Judge    []string        `json:"judge"` // aspects the property under check constrains (echoed for RecvTrace)
-	Sub      string          `json:"sub"`   // daemon receiver: destination argument after module-name stripping ("" = "/", the module root)
+	Judge    []string         `json:"judge"` // aspects the property under check constrains (echoed for RecvTrace)
+	Sub      string           `json:"sub"`   // daemon receiver: destination argument after module-name stripping ("" = "/", the module root)
 }
 
 type recvEntry struct {
